@@ -239,7 +239,8 @@ pub fn check(c: &Case1, st: &mut Stats, cfg: &Cfg, bin: &std::path::Path, scratc
                 if let End::Stop(Stop::Encoding(_)) = end {
                     ensure!(r.raw.stderr.starts_with(model.err.as_bytes()), "c01:cli-stderr", "`hyeong run -O0` stderr {:?} does not start with the program's {:?}", r.raw.err_str(), model.err);
                     let rest = &r.raw.stderr[model.err.len()..];
-                    ensure!(!rest.is_empty() && String::from_utf8_lossy(rest).contains("error"), "c01:cli-diagnostic", "encoding error without a diagnostic on stderr: {:?}", r.raw.err_str());
+                    // wording is not part of the property: a diagnostic is any text after what the program itself wrote
+                    ensure!(!rest.is_empty(), "c01:cli-diagnostic", "encoding error without a diagnostic on stderr: {:?}", r.raw.err_str());
                 } else {
                     ensure!(r.raw.stderr == model.err.as_bytes(), "c01:cli-stderr", "`hyeong run -O0` stderr {:?} want {:?}", r.raw.err_str(), model.err);
                 }
